@@ -181,7 +181,8 @@ def expand(job):
             diff = rnd.choice(["none", "n", "interval", "respell", "start" if desc["fmt"] != 4 else "end"])
             yield {"mode": sp, "rec": desc, "kind": "eq", "diff": diff, "seed": rnd.randrange(10 ** 9)}
         else:
-            if desc["a"].get("xd") or desc["a"]["y"] < 0 or desc["a"]["y"] > 9999:
+            pts_ = [desc["a"]] + ([desc["s"]] if desc["fmt"] == 1 else [])
+            if any(p_.get("xd") or p_["y"] < 0 or p_["y"] > 9999 for p_ in pts_):
                 continue
             yield {"mode": sp, "rec": desc, "kind": "text"}
 
